@@ -331,12 +331,13 @@ namespace riddle
                         ms.emplace_back(_method_declaration());
                         break;
                     case EQ_ID:
+                    case COMMA_ID:
                     case SEMICOLON_ID:
                         backtrack(c_pos);
                         fs.emplace_back(_field_declaration());
                         break;
                     default:
-                        error("expected either '(' or '=' or ';'..");
+                        error("expected either '(' or '=' or ',' or ';'..");
                     }
                     break;
                 case ID_ID:
@@ -348,12 +349,13 @@ namespace riddle
                         ms.emplace_back(_method_declaration());
                         break;
                     case EQ_ID:
+                    case COMMA_ID:
                     case SEMICOLON_ID:
                         backtrack(c_pos);
                         fs.emplace_back(_field_declaration());
                         break;
                     default:
-                        error("expected either '(' or '=' or ';'..");
+                        error("expected either '(' or '=' or ',' or ';'..");
                     }
                     break;
                 default:
